@@ -456,6 +456,20 @@ def r26d_tokenizer_precedence(ctx):
                 if testnode not in r:
                     return True
         return False
+    # the in-quote flag is cleared when a token closes the quote
+    closes = [x for x in tk.own_nodes() if isinstance(x, ast.Assign) and isinstance(x.targets[0], ast.Name) and x.targets[0].id == quote
+              and ((isinstance(x.value, ast.Constant) and x.value.value is False) or 'endswith' in unparse(x.value))]
+    okc = False
+    for x in closes:
+        par = x.parent
+        if isinstance(x.value, ast.Constant):
+            okc = okc or (isinstance(par, ast.If) and "endswith('\"')" in unparse(par.test))
+        else:
+            okc = okc or "endswith('\"')" in unparse(x.value)
+    ctx.check(okc, R, closes[0] if closes else tk.node, tk, 'a quoted string ends at the token that ends with a quote',
+              '%s is cleared under `token.endswith(\'"\')`' % quote,
+              'the in-quote flag is never cleared at the closing quote: everything after the first quoted name is read as quoted text '
+              '(comments in the names section become data)')
     for n in cfg.nodes:
         if n.kind == 'test' and isinstance(n.ast, ast.If):
             t = unparse(n.ast.test)
@@ -631,6 +645,21 @@ def r29_ballot_count_pairing(ctx):
             how = 'appended under `%s`' % (unparse(par.test) if isinstance(par, ast.If) else '?')
         ctx.check(ok, R, c, p, 'a parsed line is kept exactly when its ranking survived the strip', how,
                   '%s.append is not guarded by the ranking test' % tgt)
+    # a ballot line introduced by a ballot id stands for exactly one ballot
+    ids = [n for n in p.own_nodes() if isinstance(n, ast.If) and "startswith('(')" in unparse(n.test) and
+           any(isinstance(s_, ast.Assign) and isinstance(s_.targets[0], ast.Name) and s_.targets[0].id == 'multiplier' for s_ in n.body)]
+    for n in ids:
+        asg = [s_ for s_ in n.body if isinstance(s_, ast.Assign) and isinstance(s_.targets[0], ast.Name) and s_.targets[0].id == 'multiplier']
+        ctx.check(len(asg) == 1 and isinstance(asg[0].value, ast.Constant) and asg[0].value.value == 1, R, asg[0], p,
+                  'a ballot written with a ballot id counts as one ballot', 'multiplier = 1 in the "(id)" branch',
+                  'a ballot-id line gets multiplier `%s`' % unparse(asg[0].value))
+    ctx.check(bool(ids), R, p.node, p, 'the ballot-id branch of the parser sets the multiplier', 'found', 'ballot-id branch not found', nontrivial=False)
+    # the multiplier of an ordinary line is the integer read from the file
+    ms = [s_ for s_ in p.own_nodes() if isinstance(s_, ast.Assign) and isinstance(s_.targets[0], ast.Name) and s_.targets[0].id == 'multiplier'
+          and not isinstance(s_.value, ast.Constant)]
+    ctx.check(len(ms) == 1 and unparse(ms[0].value) == 'int(tok)', R, ms[0] if ms else p.node, p,
+              'the multiplier of a ballot line is the number written in the file', 'multiplier = int(tok)',
+              'multiplier is `%s`' % (unparse(ms[0].value) if ms else None))
     # the ballot total and the multipliers have no other writer
     for fq, g in ctx.repo.funcs.items():
         for n in g.own_nodes():
@@ -1041,6 +1070,16 @@ def r33_cli_handlers(ctx):
             for h in t.handlers:
                 for ty in (h.type.elts if isinstance(h.type, ast.Tuple) else [h.type]):
                     caught.add(unparse(ty).split('.')[-1])
+    for t in [n for n in ast.walk(main_if[0]) if isinstance(n, ast.Try)]:
+        for h in t.handlers:
+            last = h.body[-1] if h.body else None
+            oke = isinstance(last, ast.Expr) and isinstance(last.value, ast.Call) and unparse(last.value.func) == 'sys.exit' \
+                and last.value.args and isinstance(last.value.args[0], ast.Constant) and last.value.args[0].value not in (0, None)
+            oke = oke or isinstance(last, ast.Raise)
+            ctx.check(oke, R, h, 'Droop.__main__', 'after reporting a package exception the command line exits with a failure status',
+                      'handler for %s ends in sys.exit(<non-zero>)' % (unparse(h.type) if h.type else 'everything'),
+                      'the handler for %s does not end the program: control falls through to `print(report)` with `report` unbound '
+                      '(NameError traceback) or exits with status 0' % (unparse(h.type) if h.type else 'everything'))
     for nm in names:
         if nm not in raised:
             continue
